@@ -109,6 +109,12 @@ META = {
   "note": "Fork blocks carry neutral coinbases; flip-flop depth is bounded to 0-3 blocks below the receiving block.",
   "technique": "runtime monitoring: chain-truth oracle over generated reorganisation scenarios on a real chain",
  },
+ "C20": {
+  "text": "Runtime monitoring with a cooperative scheduler: the cfg-guarded hook in wallet_lock! calls back before every lock acquisition of a refresh or scan; the harness runs other complete operations at that point and compares the outcome of every such schedule with the outcomes of all serial orders from the same snapshot.",
+  "design_ref": "DESIGN.md section 5 C20",
+  "note": "Interleavings are enumerated exhaustively for 1 concurrent operation and for chosen (quick) or all (thorough) pairs; three concurrent operations are not enumerated.",
+  "technique": "runtime monitoring: hook-driven schedule enumeration with a serializability oracle over recorded outcomes",
+ },
  "C16": {
   "text": "Runtime monitoring: restores and repairs are run on chains produced by generated wallet activity, with node paging varied, and judged against chain truth read directly from grin_chain (UTXO membership, value, height, coinbase flag, maturity, account, balances) plus idempotence of a second scan.",
   "design_ref": "DESIGN.md section 5 C16",
